@@ -264,6 +264,31 @@ def clause_pagination(prog, rep):
             mins = [x for x in calls if x.name == "min"]
             rep.check(len(mins) >= 2 and any(x.name == "len" for x in calls), "pagination", "memory/messages/slice-clamped",
                       "both slice bounds are clamped with min(.., len)", "slice bounds are not both clamped to the vector length", c.loc())
+    # memory: the page is cut out of the *fully ordered* listing — nothing drops, pre-selects or truncates entries before the sort
+    # with the complete comparator has run (a pre-selection by the primary timestamp alone keeps an arbitrary subset of a run of
+    # equal timestamps that straddles the page boundary: pages then gap, repeat and differ from SQLite's)
+    SORTS = ("sort_by", "sort_unstable_by", "sort_by_key", "sort_unstable_by_key", "sort", "sort_unstable", "sort_by_cached_key")
+    CUTS = ("select_nth_unstable", "select_nth_unstable_by", "select_nth_unstable_by_key", "truncate", "drain", "split_off", "retain",
+            "retain_mut", "dedup", "dedup_by", "dedup_by_key", "swap_remove", "take", "skip", "step_by", "take_while", "skip_while",
+            "partition_point", "split_at", "split_at_mut", "chunks", "nth")
+    for f in fs:
+        nsort = 0
+        early = []
+        for g in prog.family(f):
+            sorts = [c for c in g.live_calls() if c.name in SORTS and c.krate in ("core", "alloc", "std")]
+            nsort += len(sorts)
+            if not sorts:
+                continue
+            for c in g.live_calls():
+                if c.name in CUTS and c.krate in ("core", "alloc", "std"):
+                    r = g.reachable_from(c.bb)
+                    if any(x.bb in r and x.bb != c.bb for x in sorts):
+                        early.append("%s @%s" % (c.name, c.loc()))
+        rep.floor("pagination", "memory/messages sorts the listing", nsort, 1)
+        rep.check(not early, "pagination", "memory/messages/ordered-before-cut",
+                  "no entry is dropped or pre-selected before the listing is sorted with the full comparator",
+                  "the listing is cut before it is fully ordered (%s runs ahead of the sort): with equal primary timestamps across the page "
+                  "boundary an arbitrary subset is kept, so pages gap / repeat and the backends disagree" % "; ".join(sorted(set(early))), f.loc())
     # sqlite: offset is not wrapped by a plain integer cast
     for adt, m, tr in (("MdkSqliteStorage", "messages", "GroupStorage"), ("MdkSqliteStorage", "pending_welcomes", "WelcomeStorage")):
         for f in prog.find(adt=adt, name=m, trait=tr):
